@@ -77,6 +77,7 @@ def _ungrouped_task(task, p):
     x = da.values.reshape(5, 1, n)
     tix = da.get_index("time")
     nontriv = 0
+    nvalid_windows = 0
     for b, e in itertools.product(cands, cands):
         inside = ref_window(days, b, e)
         valid = len(inside) >= 2 and (b is None or e is None or b <= e)
@@ -116,6 +117,23 @@ def _ungrouped_task(task, p):
             continue
         exp = np.asarray(st.gammastd_yxt(x, ND, inside[0], inside[-1] + 1)).reshape(5, n)
         got = res.values.reshape(5, n)
+        # the same request on the dask-backed cube (every third window): what is computed later must still use
+        # the window that was asked for
+        nvalid_windows += 1
+        if nvalid_windows % 3 == 0:
+            try:
+                with warnings.catch_warnings():
+                    warnings.simplefilter("ignore")
+                    lazy = da.chunk({"y": 2, "x": 1, "time": -1}).hdc.algo.spi(**kw)
+                    got_l = np.asarray(lazy.compute().values).reshape(5, n)
+                if not np.array_equal(got_l, exp):
+                    r = int(np.nonzero((got_l != exp).any(axis=1))[0][0])
+                    p.violation(sub, dict(key, what="dask"), case, f"spi({kw}) on the dask-backed cube, axis days {days}: pixel {PIX[r, list(positions)].tolist()} -> "
+                                                                    f"{got_l[r].tolist()}, but fitting on exactly the steps {inside} gives {exp[r].tolist()}")
+                if lazy.attrs.get("spi_calibration_begin") != str(tix[inside[0]]) or lazy.attrs.get("spi_calibration_end") != str(tix[inside[-1]]):
+                    p.violation(sub, dict(key, what="dask attrs"), case, f"spi({kw}) on the dask-backed cube: attrs {lazy.attrs.get('spi_calibration_begin')} / {lazy.attrs.get('spi_calibration_end')}")
+            except Exception as ex:
+                p.violation(sub, dict(key, what="dask"), case, f"spi({kw}) on the dask-backed cube raised {type(ex).__name__}: {ex}")
         if not np.array_equal(got, exp):
             r = int(np.nonzero((got != exp).any(axis=1))[0][0])
             p.violation(sub, key, case, f"spi({kw}) on axis days {days}: pixel {PIX[r, list(positions)].tolist()} -> {got[r].tolist()}, "
